@@ -84,6 +84,12 @@ func ErrFor(class string) error {
 		return engine.NewCommandError(command.NewErrMachine(machine.NewErrInsufficientFund("no more fund to withdraw")))
 	case "VALIDATION":
 		return engine.NewCommandError(command.NewErrConflict())
+	case "COMPILATION_FAILED":
+		return engine.NewCommandError(command.NewErrCompilationFailed(fmt.Errorf("mismatched input")))
+	case "NO_POSTINGS":
+		return engine.NewCommandError(command.NewErrNoPostings())
+	case "METADATA_OVERRIDE":
+		return engine.NewCommandError(command.NewErrMachine(machine.NewErrMetadataOverride("k")))
 	case "NOT_FOUND":
 		return engine.NewCommandError(command.NewErrRevertTransactionNotFound())
 	case "META_NOT_FOUND":
@@ -250,6 +256,17 @@ func NewRouter(b backend.Backend, readOnly bool) chi.Router {
 // Serve sends one request through the router and returns the recorder.
 func Serve(router http.Handler, method, target string, header map[string]string, body string) *httptest.ResponseRecorder {
 	return ServeCtx(context.Background(), router, method, target, header, body)
+}
+
+// NewRequest builds a request like Serve does (any method text, any target the URL parser takes).
+func NewRequest(method, target string) *http.Request {
+	req := httptest.NewRequest("GET", "http://ledger.test/", nil)
+	req.Method = method
+	if u, err := req.URL.Parse(target); err == nil {
+		req.URL = u
+		req.RequestURI = u.RequestURI()
+	}
+	return req.WithContext(logging.ContextWithLogger(req.Context(), nopLogger{}))
 }
 
 // ServeCtx is Serve with a caller-supplied context (e.g. one that carries a hookctx target).
